@@ -9,7 +9,8 @@ git -C /repo worktree add -q --detach $MX/repo HEAD
 rsync -a --exclude target --exclude replays --exclude .git /verif/ $MX/verif/
 sed -i "s|path = \"/repo\"|path = \"$MX/repo\"|" $MX/verif/mc/Cargo.toml
 OUT=/verif/seeded/matrix.tsv
-# MATRIX_MODE=full runs every check for every change (about 3.5 min per change); the default runs the
+# MATRIX_MODE=full runs every check for every change (about 3.5 min per change), MATRIX_MODE=own only the
+# check of the change's own property; the default runs the
 # check of the change's own property plus the nine checks whose quick tier takes under two seconds
 FAST="C02 C04 C05 C06 C07 C13 C15 C16 C17"
 ALL="C01 C02 C03 C04 C05 C06 C07 C08 C09 C10 C11 C12 C13 C14 C15 C16 C17 C18"
@@ -21,7 +22,10 @@ for md in "$@"; do
   det=""; ndet=""
   # C19 (the f32 build) repeats the C01-C07 spaces: it is run only for the changes written against C19
   own="${name%%-*}"
-  if [ "${MATRIX_MODE:-fast}" = full ]; then
+  if [ "${MATRIX_MODE:-fast}" = own ]; then
+    # only the check of the property the change was written against (regressions: the checks that first reported them)
+    CHECKS="$own"; case "$name" in orig-*) CHECKS="C01 C02 C09" ;; esac
+  elif [ "${MATRIX_MODE:-fast}" = full ]; then
     CHECKS="$ALL"; case "$name" in C19-*) CHECKS="$ALL C19" ;; esac
   else
     CHECKS="$FAST"
